@@ -1278,11 +1278,15 @@ def cumreduction(
         )
         for old, ind in zip(last_indices, indices):
             this_slice = (name, "extra") + ind
-            dsk[this_slice] = (
-                binop,
-                (name, "extra") + old,
-                (operator.getitem, (m.name,) + old, slc),
-            )
+            if x.chunks[axis][i - 1] == 0:
+                # nothing to carry over from an empty block
+                dsk[this_slice] = (name, "extra") + old
+            else:
+                dsk[this_slice] = (
+                    binop,
+                    (name, "extra") + old,
+                    (operator.getitem, (m.name,) + old, slc),
+                )
             dsk[(name,) + ind] = (binop, this_slice, (m.name,) + ind)
 
     graph = HighLevelGraph.from_collections(name, dsk, dependencies=[m])
